@@ -131,6 +131,15 @@ def build(tier: str) -> list[Obligation]:
         obs.append(group_ob(n, 2 if n < 3 or thorough else 1, t))
     for pattern in itertools.product((False, True), repeat=3 if not thorough else 4):
         obs.append(autoid_ob(pattern, t))
+    # histories of allocate(auto) / register-pending / unregister steps, op codes symbolic (explicit ids: autoid_* above)
+    nops = 7 if thorough else 6
+    for first in (0,):
+        for second in (0, 2):
+            params = ", ".join(f"o{k}: int" for k in range(2, nops))
+            pres = [f"o{k} in (0, 2, 3)" for k in range(2, nops)]
+            body = f"return group_history_ok([{first}, {second}, " + ", ".join(f"o{k}" for k in range(2, nops)) + "], [])\n"
+            src = e1.make_module(PRELUDE, "h", params, pres, body)
+            obs.append(Obligation(name=f"group_history_{first}{second}", module_src=src, fn="h", timeout=900 if thorough else 200, meta={"members": "history"}))
     return obs
 
 
